@@ -51,6 +51,10 @@ def gen_schedule(tape, facades=bk.FACADES, allow_native=True):
     sched['eager'] = tape.choice('eagerness', [(1, 1), (9, 10), (1, 2), (1, 10), (0, 1)])
     sched['bg_max'] = tape.choice('bg_max', [0, 1, 3])
     sched['stall'] = tape.choice('stall_p', [(0, 1), (1, 10), (1, 3)])
+    # an ipyparallel cluster whose engines have not registered yet reports 0 cores; with an
+    # explicit max_parallel_batches the core count must not matter
+    sched['cores0'] = bool(fac == 'ipp' and sched['mpb'] is not None and
+                           tape.chance('no_engine_registered_yet', 1, 4))
     return sched
 
 
@@ -79,6 +83,9 @@ class SamplerRun:
             self.backend = bk.SimBackend(
                 tape, out, n_workers=sched['workers'], pickled=(fac != 'pool_ref'),
                 eager=sched['eager'], bg_max=sched['bg_max'], stall=sched['stall'])
+        if self.backend is not None and sched.get('cores0'):
+            self.backend.reported_cores = 0
+            out.stats['client_reports_zero_cores'] += 1
         sp.REC.backend = self.backend
         self.client = bk.make_client(elfi, fac, self.backend)
         elfi.set_client(self.client)
